@@ -53,6 +53,7 @@ type towerArgs struct {
 	Depth int    `json:"depth"`
 	Mix   string `json:"mix"` // "arr" | "obj" | "alt" | "alt2"
 	Close bool   `json:"close"`
+	Inner string `json:"inner,omitempty"` // innermost: "" = null scalar | "eobj" {} | "earr" [] | "eobj-ws" { } | "earr-ws" [ \n] | "str": the innermost container counts towards Depth
 }
 
 type nsArgs struct {
@@ -101,50 +102,65 @@ func checkText(w *run.W, b []byte, shape bool) {
 			w.Broken("reference parser and tokenizer disagree on %q cfg=%s: parse=%v stream=%v n=%d", b, c, want, streamOK, nvals)
 		}
 
-		// (2) Decoder by values
-		d := jsontext.NewDecoder(bytes.NewReader(b), opts...)
-		n := 0
-		var err error
-		for {
-			var v jsontext.Value
-			v, err = d.ReadValue()
-			if err != nil {
+		// (2) Decoder by values and (3) by tokens: once with the whole text available at once and
+		// once through a reader that cuts it (accept/reject must not depend on how the bytes arrive:
+		// the resumable scanners only run when a token straddles the end of the buffered data)
+		cut := 1 // one byte per Read
+		if len(b) > 48 {
+			cut = 1 + int(fnvSum(b)%uint64(len(b)-1)) // two chunks, cut position from the text itself
+		}
+		for ri, mk := range []func() io.Reader{
+			func() io.Reader { return bytes.NewReader(b) },
+			func() io.Reader { return &cutReader{b: b, first: cut, rest: cut} },
+		} {
+			if ri == 1 && len(b) < 2 {
 				break
 			}
-			_ = v
-			n++
-			if n > len(b)+1 {
-				w.Violate("readvalue-no-progress", map[string]string{"cfg": c.String()}, "ReadValue returned more values than bytes on %q", b)
-				break
+			rname := [2]string{"whole", "cut"}[ri]
+			d := jsontext.NewDecoder(mk(), opts...)
+			n := 0
+			var err error
+			for {
+				var v jsontext.Value
+				v, err = d.ReadValue()
+				if err != nil {
+					break
+				}
+				_ = v
+				n++
+				if n > len(b)+1 {
+					w.Violate("readvalue-no-progress", map[string]string{"cfg": c.String()}, "ReadValue returned more values than bytes on %q", b)
+					break
+				}
 			}
-		}
-		if (err == io.EOF) != streamOK || n != nvals {
-			w.Violate("readvalue-stream", map[string]string{"cfg": c.String(), "want_eof": fmt.Sprint(streamOK), "got_eof": fmt.Sprint(err == io.EOF)},
-				"ReadValue loop on %q (%s): %d values then %v; reference: %d values, stream valid=%v", b, c, n, err, nvals, streamOK)
-		}
+			if (err == io.EOF) != streamOK || n != nvals {
+				w.Violate("readvalue-stream", map[string]string{"cfg": c.String(), "reader": rname, "want_eof": fmt.Sprint(streamOK), "got_eof": fmt.Sprint(err == io.EOF)},
+					"ReadValue loop on %q (%s, reader %s cut %d): %d values then %v; reference: %d values, stream valid=%v", b, c, rname, cut, n, err, nvals, streamOK)
+			}
 
-		// (3) Decoder by tokens
-		d = jsontext.NewDecoder(bytes.NewReader(b), opts...)
-		nt := 0
-		kindsOK := true
-		for {
-			var t jsontext.Token
-			t, err = d.ReadToken()
-			if err != nil {
-				break
+			d = jsontext.NewDecoder(mk(), opts...)
+			nt := 0
+			kindsOK := true
+			for {
+				var t jsontext.Token
+				t, err = d.ReadToken()
+				if err != nil {
+					break
+				}
+				if nt < len(toks) && !kindMatches(t.Kind(), toks[nt].Kind) {
+					kindsOK = false
+				}
+				nt++
+				if nt > len(b)+1 {
+					w.Violate("readtoken-no-progress", map[string]string{"cfg": c.String()}, "ReadToken returned more tokens than bytes on %q", b)
+					break
+				}
 			}
-			if nt < len(toks) && !kindMatches(t.Kind(), toks[nt].Kind) {
-				kindsOK = false
+			if (err == io.EOF) != streamOK || nt != len(toks) || !kindsOK {
+				w.Violate("readtoken-stream", map[string]string{"cfg": c.String(), "reader": rname, "want_eof": fmt.Sprint(streamOK), "got_eof": fmt.Sprint(err == io.EOF)},
+					"ReadToken loop on %q (%s, reader %s cut %d): %d tokens then %v (depth %d); reference: %d tokens, stream valid=%v", b, c, rname, cut, nt, err, d.StackDepth(), len(toks), streamOK)
 			}
-			nt++
-			if nt > len(b)+1 {
-				w.Violate("readtoken-no-progress", map[string]string{"cfg": c.String()}, "ReadToken returned more tokens than bytes on %q", b)
-				break
-			}
-		}
-		if (err == io.EOF) != streamOK || nt != len(toks) || !kindsOK {
-			w.Violate("readtoken-stream", map[string]string{"cfg": c.String(), "want_eof": fmt.Sprint(streamOK), "got_eof": fmt.Sprint(err == io.EOF)},
-				"ReadToken loop on %q (%s): %d tokens then %v (depth %d); reference: %d tokens, stream valid=%v", b, c, nt, err, d.StackDepth(), len(toks), streamOK)
+			w.Count("decoder_passes_"+rname, 2)
 		}
 
 		// (4) Unmarshal into any: a syntactic error iff the grammar rejects the text.
@@ -197,6 +213,33 @@ func checkText(w *run.W, b []byte, shape bool) {
 	}
 }
 
+// cutReader hands out b in a first chunk of `first` bytes and then chunks of `rest` bytes.
+type cutReader struct {
+	b           []byte
+	first, rest int
+	started     bool
+}
+
+func (r *cutReader) Read(p []byte) (int, error) {
+	if len(r.b) == 0 {
+		return 0, io.EOF
+	}
+	n := r.rest
+	if !r.started {
+		n, r.started = r.first, true
+	}
+	n = min(n, len(p), len(r.b))
+	copy(p, r.b[:n])
+	r.b = r.b[n:]
+	return n, nil
+}
+
+func fnvSum(b []byte) uint64 {
+	h := fnv.New64a()
+	h.Write(b)
+	return h.Sum64()
+}
+
 func kindMatches(k jsontext.Kind, r byte) bool {
 	return byte(k) == r
 }
@@ -221,8 +264,23 @@ func tower(a *towerArgs) []byte {
 			cl = append(cl, ']')
 		}
 	}
-	// innermost value
-	out := append(open, "null"...)
+	// innermost value: a scalar, or an empty container that is itself the Depth-th level
+	inner := "null"
+	if a.Inner != "" && a.Inner != "str" && len(open) > 0 {
+		// drop the last generated level; the empty container takes its place
+		last := cl[len(cl)-1]
+		cl = cl[:len(cl)-1]
+		if last == '}' {
+			open = open[:len(open)-len(`{"a":`)]
+		} else {
+			open = open[:len(open)-1]
+		}
+		inner = map[string]string{"eobj": "{}", "earr": "[]", "eobj-ws": "{ }", "earr-ws": "[ \n]"}[a.Inner]
+	}
+	if a.Inner == "str" {
+		inner = `"s"`
+	}
+	out := append(open, inner...)
 	if a.Close {
 		for i := len(cl) - 1; i >= 0; i-- {
 			out = append(out, cl[i])
@@ -430,6 +488,12 @@ func generate(w *run.W) {
 			for _, cl := range []bool{true, false} {
 				if mine() {
 					w.Do("tower", &towerArgs{Depth: d, Mix: mix, Close: cl})
+				}
+			}
+			// the innermost level is an EMPTY container (the value paths have early returns for those)
+			for _, inner := range []string{"eobj", "earr", "eobj-ws", "earr-ws", "str"} {
+				if mine() {
+					w.Do("tower", &towerArgs{Depth: d, Mix: mix, Close: true, Inner: inner})
 				}
 			}
 		}
